@@ -18,6 +18,7 @@ import numpy as np  # noqa: E402
 import hodgen10 as hg  # noqa: E402
 
 THEOREMS = [
+    'AbacusVerif.TwoPass.twoPass_run',
     'AbacusVerif.TwoPass.fill_is_filter',
     'AbacusVerif.TwoPass.thread_count_independent',
     'AbacusVerif.TwoPass.count_fill_agree',
@@ -28,6 +29,8 @@ THEOREMS = [
     'AbacusVerif.TwoPass.fastConcat_schedule_independent',
     'AbacusVerif.TwoPass.searchsorted_pointwise',
     'AbacusVerif.TwoPass.rint_linspace_blocks',
+    'AbacusVerif.TwoPass.fastConcat_concrete',
+    'AbacusVerif.TwoPass.twoPass_concrete',
 ]
 DRIVER = 'drv_c10'
 NMAX = 16
